@@ -415,6 +415,9 @@ func (x *Executor) execLoop(fr *Frame, li *loopInfo, ins []incoming) map[*ssa.Ba
 	}
 	if ws.all {
 		for c := range u.heapSorts {
+			if c == heldComp {
+				continue
+			}
 			if !ws.comps[c] && !(u.heapKinds[c] == "global" && u.eng.isConstGlobal(c)) {
 				cs = append(cs, c)
 			}
@@ -521,6 +524,14 @@ func (x *Executor) execLoop(fr *Frame, li *loopInfo, ins []incoming) map[*ssa.Ba
 	exits, backs := x.execRegion(fr, li, map[*ssa.BasicBlock][]incoming{li.header: {{cond: reachE, st: stH}}})
 	// 6. invariants on back edges
 	for bi, be := range backs {
+		// lock balance: an iteration releases what it acquired
+		if fr.con != nil && fr.con == x.topCon && fr.con.Safe {
+			if hb, ok := be.st.heap[heldComp]; ok {
+				if hh := x.heapGet(stH, heldComp); hh != hb {
+					u.addObl(&Obligation{Name: fmt.Sprintf("%s:lockbalance:preserve.%d", lname, bi+1), Kind: "safe:lock", Clause: "every mutex acquired in the loop body is released before the next iteration", Goal: fmt.Sprintf("(=> %s (= %s %s))", be.cond, hb, hh)})
+				}
+			}
+		}
 		for _, c := range frameComps {
 			if goal, ok := x.frameGoal(c, be.st); ok {
 				u.addObl(&Obligation{Name: fmt.Sprintf("%s:frame:%s:preserve.%d", lname, c, bi+1), Kind: "frame", Clause: "loop body: only declared locations of " + c + " are modified", Goal: fmt.Sprintf("(=> %s %s)", be.cond, goal)})
